@@ -231,9 +231,10 @@ NamesThorough == NamesQuick \cup {<<120, 95, 88, 95, 115, 105, 120, 116, 101, 10
 ThrQuick == {-1, 0, 1, 64}
 ThrThorough == {-1, 0, 1, 2, 64, 256, 70000}
 
-Configs == {[t |-> t, name |-> nm, ouuid |-> <<"offline", nm>>, buuid |-> <<"zero">>, proto |-> 767,
+\* buuid: what the bot puts into its login start - nothing, or a UUID of its own (the gate decides, not the client)
+Configs == {[t |-> t, name |-> nm, ouuid |-> <<"offline", nm>>, buuid |-> bu, proto |-> 767,
              refuse |-> r, intent |-> i, pat |-> p, status |-> <<"json">>, ping |-> <<"now">>] :
-              t \in Thresholds, nm \in Names, r \in Refusals, i \in Intentions, p \in 0..2}
+              t \in Thresholds, nm \in Names, r \in Refusals, i \in Intentions, p \in 0..2, bu \in {<<"zero">>, <<"foreign">>}}
 
 Init == /\ cfg \in Configs
         /\ bpc = "start" /\ spc = "start" /\ bthr = -1 /\ sthr = -1 /\ bpend = -1
